@@ -401,6 +401,57 @@ fn step(ctx: &Ctx, init: (usize, usize), hist: &[Op], m: &Model, op: &Op) -> Opt
     Some(m2)
 }
 
+/// All histories up to `depth` over a reduced alphabet WITHOUT merging states: two histories that
+/// reach the same observable state (for instance a mark beyond the end, which changes nothing)
+/// are both continued, so state the bitmap may keep beside its bits (caches, memos, counters)
+/// cannot hide behind the state key of the closure.
+fn unmerged_histories(ctx: &Ctx, init: (usize, usize), depth: usize) {
+    fn reduced(m: &Model) -> Vec<Op> {
+        let p = m.page;
+        let n = m.npages();
+        let mut v = Vec::new();
+        for k in 0..n + 3 {
+            v.push(Op::SetRange(k * p, 1));
+            v.push(Op::SetBit(k));
+        }
+        v.push(Op::SetRange(n.saturating_sub(1) * p, 3 * p));
+        v.push(Op::SetRange(0, p + 1));
+        for k in [0, n, n + 1] {
+            v.push(Op::SliceMark(0, k * p, 1));
+            v.push(Op::SliceMark(p, k * p, 1));
+        }
+        v.push(Op::Enlarge(p));
+        v.push(Op::Enlarge(2 * p + 1));
+        v.push(Op::GetAndReset);
+        v.push(Op::Reset);
+        v.push(Op::ResetRange(0, p));
+        v.push(Op::ResetBit(n.saturating_sub(1)));
+        v.push(Op::CloneCheck);
+        v
+    }
+    fn rec(ctx: &Ctx, init: (usize, usize), hist: &mut Vec<Op>, m: &Model, left: usize, t: &mut u64) {
+        for op in reduced(m) {
+            *t += 1;
+            if let Some(m2) = step(ctx, init, hist, m, &op) {
+                if left > 1 && m2.npages() <= 9 {
+                    hist.push(op);
+                    rec(ctx, init, hist, &m2, left - 1, t);
+                    hist.pop();
+                }
+            }
+            if ctx.n_findings() > 40 {
+                return;
+            }
+        }
+    }
+    let m0 = Model { byte_size: init.0, page: init.1, set: BTreeSet::new() };
+    let mut t = 0u64;
+    rec(ctx, init, &mut Vec::new(), &m0, depth, &mut t);
+    ctx.add_transitions(t);
+    ctx.add_traces(t);
+    ctx.extra_add("unmerged_history_transitions", t);
+}
+
 fn closure(ctx: &Ctx, init: (usize, usize), max_pages: usize, full: bool) {
     let m0 = Model {
         byte_size: init.0,
@@ -552,7 +603,7 @@ fn boundary(ctx: &Ctx, pages: usize, page: usize, slack: usize, depth2: bool) {
 
 pub fn run(tier: Tier, replay: Option<String>) -> i32 {
     let ctx = crate::new_ctx("C09", tier, "model_checking", &replay);
-    ctx.set_rule("E1: BFS to an empty frontier over every public operation (full argument ranges 0..=bytes+2p plus values around isize::MAX/usize::MAX) on tiny AtomicBitmaps (<= 6 pages, page size 1..3, byte sizes +-1 around page multiples); state = complete concrete state (byte_size, page_size, set of dirty pages as decoded from the raw words); every transition is executed on the real bitmap, rebuilt by replaying the shortest history, and every observable (len, byte_size, is_bit_set, is_addr_set, dirty_at, slices, nested slices, raw words) is compared with a BTreeSet model. Plus depth-1/2 sweeps on word-boundary configurations (63..129 pages, page sizes 1,3,5,7,4096,4097).");
+    ctx.set_rule("E1: BFS to an empty frontier over every public operation (full argument ranges 0..=bytes+2p plus values around isize::MAX/usize::MAX) on tiny AtomicBitmaps (<= 6 pages, page size 1..3, byte sizes +-1 around page multiples); state = complete concrete state (byte_size, page_size, set of dirty pages as decoded from the raw words); every transition is executed on the real bitmap, rebuilt by replaying the shortest history, and every observable (len, byte_size, is_bit_set, is_addr_set, dirty_at, slices, nested slices, raw words) is compared with a BTreeSet model. Plus all histories of 3 (thorough 4) operations over a reduced alphabet (single-page and past-the-end marks, enlarge, harvest, resets, clone) WITHOUT merging states, so that state kept beside the bits cannot hide behind the state key. Plus depth-1/2 sweeps on word-boundary configurations (63..129 pages, page sizes 1,3,5,7,4096,4097).");
     ctx.assume("successors with more than 6 pages (after enlarge) are checked but not expanded further in the closure; the boundary sweeps cover large bitmaps");
     if let Some(r) = ctx.replay_of.clone() {
         let c = &r["case"];
@@ -620,6 +671,10 @@ pub fn run(tier: Tier, replay: Option<String>) -> i32 {
         bcfg.push((1, 7, 6));
         for b in bcfg {
             s.spawn(move || boundary(ctx, b.0, b.1, b.2, true));
+        }
+        let depth = if tier.thorough() { 4 } else { 3 };
+        for init in [(2usize, 1usize), (5, 2), (6, 3), (63, 1), (4096 * 2 - 1, 4096)] {
+            s.spawn(move || unmerged_histories(ctx, init, depth));
         }
     });
     ctx.set_exhaustive(true);
